@@ -425,6 +425,75 @@ class ScheduleSpace(_Base):
                         "max_ready": st2["max_ready"], "distinct_results": len(digests)})
 
 
+FAMILIES = ["savi", "evi", "hillshade", "mean", "apply", "focal_stats", "convolution", "hotspots", "binary", "reclassify",
+            "equal_interval", "true_color", "ndvi_vs_swapped", "perlin", "slope_aspect_curv"]
+FAMILY_POLICY = {"hotspots": "hotspots", "equal_interval": "cuts", "true_color": "true_color", "perlin": "perlin"}
+
+
+class JointComputeSpace(_Base):
+    """calls differing only in parameters, built on the SAME Dask inputs and computed together in ONE graph
+    (dask.compute(a, b, ...)): each must still equal its own NumPy result."""
+
+    def __init__(self, tier):
+        self.tier = tier
+        self.chs = [((4,), (5,)), ((2, 2), (2, 3)), ((1, 3), (4, 1)), ((1, 1, 2), (2, 1, 2))]
+        if tier == "thorough":
+            self.chs += [((1, 1, 1, 1), (1, 1, 1, 1, 1)), ((3, 1), (5,))]
+        self.name = "joint_compute_parameter_families"
+        self.size = len(FAMILIES) * len(self.chs)
+        self.grain = len(self.chs)
+        self.weight = 5.0
+
+    def setup(self):
+        super().setup()
+        from ._ops import build_families
+        self.fam = build_families()
+        assert sorted(self.fam) == sorted(FAMILIES)
+
+    def describe(self, rank):
+        fi, ci = divmod(rank, len(self.chs))
+        return {"family": FAMILIES[fi], "chunks": self.chs[ci], "computed": "together in one dask.compute"}
+
+    def run(self, lo, hi, out):
+        from ._ops import Op, kernel01
+        for rank in range(lo, hi):
+            fi, ci = divmod(rank, len(self.chs))
+            name = FAMILIES[fi]
+            nr, variants = self.fam[name]
+            shape = SHAPE["quick"]
+            arrays = base_arrays(shape, "f8", nr)
+            ch = self.chs[ci]
+            refs = [np.asarray(v(self.rasters(arrays, "spaced_desc")).values) for v in variants]
+            s = self.dx.ControlledScheduler((), "deps")
+            key = "c01|joint|%s|chunks=%s" % (name, ch)
+            try:
+                with self.dask.config.set(scheduler=s.get):
+                    rd = self.rasters(arrays, "spaced_desc", [ch] * nr)
+                    lazies = [v(rd) for v in variants]
+                    vals = self.dask.compute(*[z.data for z in lazies])
+            except Exception as e:
+                out.case(outcome=("exc", type(e).__name__), calls=1)
+                out.violation(rank, key + "|raises", "joint compute raises %r" % (e,), case=self.describe(rank))
+                continue
+            out.calls(s.tasks)
+            pol = FAMILY_POLICY.get(name, "exact")
+            for i, (val, ref) in enumerate(zip(vals, refs)):
+                kern = kernel01((3, 3)) if i == 0 else kernel01((3, 5))
+                op = Op("%s_k%d" % (name, 3 if i == 0 else 5) if pol == "cuts" else name, None, nr, pol, kernel=kern)
+                ok, nt, msg = compare(op, arrays, ref, np.asarray(val))
+                out.case(outcome=(name, i, str(ch), np.asarray(val)), nontrivial=True, calls=1)
+                out.ok()
+                out.tie(nt)
+                if not ok:
+                    out.violation(rank, key + "|variant=%d" % i, "computed together with its parameter variants, variant %d of %s "
+                                  "no longer equals its NumPy result: %s" % (i, name, msg), case=dict(self.describe(rank), variant=i),
+                                  observed=np.asarray(val), expected=ref)
+            if s.impure:
+                out.count("impure_tasks", len(s.impure))
+            if out.want_sample():
+                out.sample(dict(self.describe(rank), variants=len(variants), tasks=s.tasks))
+
+
 class ThreadsSpace(_Base):
     """free-running complement (NOT the deciding step): the real threaded scheduler x worker counts."""
 
@@ -472,7 +541,8 @@ def _names(tier):
     from ._ops import KSHAPES_Q, KSHAPES_T
     shapes = KSHAPES_T if tier == "thorough" else KSHAPES_Q
     tags = ["%dx%d" % s for s in shapes]
-    terrain = ["slope", "aspect", "curvature", "hillshade", "hillshade_az100_alt30", "mean_p1", "mean_p2", "mean_p3_excl"]
+    terrain = ["slope", "aspect", "curvature", "hillshade", "hillshade_az100_alt30", "mean_p1", "mean_p2", "mean_p3_excl",
+               "mean_p2_excl_nonan"]
     focal = []
     for t in tags:
         focal += ["apply_mean_" + t, "apply_range_" + t, "apply_corner_" + t, "focal_stats_" + t,
@@ -502,6 +572,7 @@ def build(tier):
                        + cell1 + ["ndvi", "evi", "true_color"]),
         DtypeCellsizeSpace(tier, terrain + [f for f in focal if "3x5" in f or "5x3" in f] + cell1 + ["ndvi", "savi", "arvi",
                                                                                                    "true_color"] + gens[:3]),
+        JointComputeSpace(tier),
         ScheduleSpace(tier, ["slope", "mean_p2", "apply_mean_3x3", "equal_interval_k3", "ndvi", "true_color", "perlin",
                              "reclassify"] + (["focal_stats_3x3", "hotspots_3x3", "convolution_3x5", "evi", "aspect"]
                                               if tier == "thorough" else [])),
